@@ -171,7 +171,40 @@ def main(tier="quick", seed=0):
     return 0
 
 
+def do_merge(logs):
+    """Fold the DETECT lines of earlier audit runs (logs of `vp run`) into seeded/status.json / STATUS.md."""
+    import re
+    results = {}
+    for path in logs:
+        for line in open(path, errors="replace"):
+            m = re.match(r"DETECT (\S+) with (\S+): rc=(\d+) ?(.*)", line)
+            if m:
+                name, pid, rc, first = m.group(1), m.group(2), int(m.group(3)), m.group(4)
+                results.setdefault(name, {})[pid] = {"rc": rc, "first": re.sub(r"replay=\S+", "replay=...", first)[:300], "wall": 0}
+            m = re.match(r"DETECT (\S+): not a violation", line)
+            if m:
+                results[m.group(1)] = {"status": "equivalent"}
+    path = os.path.join(SEEDED, "status.json")
+    try:
+        allr = json.load(open(path))
+    except Exception:
+        allr = {}
+    for name, r in results.items():
+        old = allr.get(name, {})
+        if isinstance(old, dict):
+            old = {k: v for k, v in old.items() if k not in r}
+            old.update(r)
+            r = old
+        allr[name] = r
+    json.dump(allr, open(path, "w"), indent=1, sort_keys=True)
+    write_status({})
+    print("merged %d results" % len(results))
+
+
 if __name__ == "__main__":
+    if sys.argv[1] == "merge":
+        do_merge(sys.argv[2:])
+        sys.exit(0)
     if sys.argv[1] == "import":
         sys.exit(0 if do_import(sys.argv[2], sys.argv[3]) else 1)
     if sys.argv[1] == "detect":
